@@ -321,9 +321,92 @@ def check_race(case):
   return r, s
 
 
+# ------------------------------------------------------------------ execute() that cannot run the test at all
+BAD_INPUTS = ['uncopyable-metadata', 'unreplaced-placeholder', 'bad-profile-path', 'raising-metadata-copy']
+
+
+def check_badinput(case):
+  """case = {'badinput': kind, 'phases': 1..3, 'then': 'again'|'good'}.
+
+  The Test (or the execute() call) is given something the run cannot start or complete with.  execute() may raise for input
+  it cannot use, but it must clean up after itself: no executor held, not registered for SIGINT, no record handler left on
+  the openhtf logger, and the Test is not refused as "already running" afterwards.  A profile file that cannot be written
+  does not concern the test itself: the record still reaches every callback.
+  """
+  import copy as _copy  # pylint: disable=g-import-not-at-top
+  r = CaseResult()
+  kind = case['badinput']
+  htf = ohtf.reset_case(cancel_timeout_s=0.05, plug_teardown_timeout_s=0.05)
+  ran = []
+
+  def mkphase(i):
+    def ph(test):
+      ran.append(i)
+    ph.__name__ = 'ph%d' % i
+    return ph
+
+  class Uncopyable(object):
+    def __deepcopy__(self, memo):
+      raise TypeError('cannot copy the station handle')
+
+  nodes = [mkphase(i) for i in range(case.get('phases', 1))]
+  kw = {}
+  exec_kw = {}
+  if kind == 'uncopyable-metadata':
+    kw['station_lock'] = threading.Lock()
+  elif kind == 'raising-metadata-copy':
+    kw['station'] = Uncopyable()
+  elif kind == 'unreplaced-placeholder':
+    nodes.append(htf.plugs.plug(p=htf.plugs.BasePlug.placeholder)(lambda test, p: None))
+  elif kind == 'bad-profile-path':
+    exec_kw['profile_filename'] = '/nonexistent-directory-vf/x.prof'
+  try:
+    test = htf.Test(*nodes, **kw)
+  except Exception as e:  # pylint: disable=broad-except
+    r.classes = ['badinput:' + kind, 'rejected-at-construction']
+    r.nontrivial = True
+    return r
+  recs = []
+  test.add_output_callbacks(recs.append)
+  test.add_output_callbacks(recs.append)
+  r.classes = ['badinput:' + kind]
+  r.nontrivial = True
+  outcomes = []
+  for run in range(2):
+    del recs[:]
+    exc = None
+    try:
+      test.execute(**exec_kw)
+    except BaseException as e:  # pylint: disable=broad-except
+      exc = e
+    outcomes.append(type(exc).__name__ if exc is not None else 'returned')
+    if type(exc).__name__ == 'InvalidTestStateError':
+      r.bad('C09/badinput/refused-as-already-running', '%s: execute() #%d refused: %r (earlier: %r)' % (kind, run + 1, exc, outcomes[:-1]))
+      break
+    if test.state is not None:
+      r.bad('C09/badinput/executor-still-held', '%s: test.state is not None after execute() #%d (%s)' % (kind, run + 1, outcomes[-1]))
+    if len(htf.Test.TEST_INSTANCES):
+      r.bad('C09/badinput/still-registered-for-sigint', '%s: TEST_INSTANCES %r after execute() #%d' % (kind, list(htf.Test.TEST_INSTANCES), run + 1))
+    handlers = [type(h).__name__ for h in logging.getLogger('openhtf').handlers]
+    if handlers != [type(h).__name__ for h in ohtf.baseline_handlers()]:
+      r.bad('C09/badinput/log-handler-left', '%s: openhtf logger handlers %r after execute() #%d (%s)' % (kind, handlers, run + 1, outcomes[-1]))
+    if kind == 'bad-profile-path':
+      if len(recs) != 2 or recs[0] is not recs[1]:
+        r.bad('C09/badinput/record-lost', '%s: the test ran (%r) but the callbacks were called %d times (execute(): %s)' % (kind, ran, len(recs), outcomes[-1]))
+      else:
+        for sig, detail in completeness(recs[0]):
+          r.bad(sig.replace('C09/', 'C09/badinput/'), '%s: %s' % (kind, detail))
+    if r.violations:
+      break
+  r.classes += ['execute:' + o for o in outcomes]
+  ohtf.reset_case()
+  return r
+
+
 def plan(tier, seed):
   n = 300 if tier == 'quick' else 6000
   jobs = [{'kind': 'hyp', 'name': 'hyp%d' % i, 'hseed': seed * 1000 + i, 'n': n} for i in range(16)]
+  jobs.append({'kind': 'badinput', 'name': 'badinput'})
   # the same completeness predicate with an abort injected at every yield point of a scheduled run (engine of C04)
   for t in ABORT_TEMPLATES:
     jobs.append({'kind': 'abort-sweep', 'name': 'abort.%s' % t, 'template': t, 'stride': 4 if tier == 'quick' else 1, 'offset': seed % 4 if tier == 'quick' else 0})
@@ -339,6 +422,15 @@ def run_job(job, acct):
   if job['kind'] == '_regress':
     from vf import runner  # pylint: disable=g-import-not-at-top
     runner.run_regress(sys.modules[__name__], job, acct)
+    return
+  if job['kind'] == 'badinput':
+    for kind in BAD_INPUTS:
+      for nph in (1, 3):
+        case = {'badinput': kind, 'phases': nph}
+        r = check_badinput(case)
+        acct.case(case, r.nontrivial, r.classes)
+        for sig, detail in r.violations:
+          (acct.known if sig in known else acct.violation)(sig, case, detail)
     return
   if job['kind'] == 'race':
     base = {'race': job['race'], 'plan': {}}
@@ -375,6 +467,8 @@ def run_job(job, acct):
 
 
 def replay(case):
+  if 'badinput' in case:
+    return check_badinput(case).violations
   if 'race' in case:
     return check_race(case)[0].violations
   if 'abort_sweep' in case:
